@@ -41,7 +41,9 @@ def plan(tier):
 
 
 u16 = vs.edge_int(0, 0xFFFF)
-_full_cell = st.tuples(st.sampled_from(NOTECMDS), vs.edge_int(0, 129), st.integers(0, 6), u16, u16).map(list)
+# module numbers: mostly the few that resolve to a module of the small project, sometimes numbers that need more than 8 bits
+_modnum = st.one_of(st.integers(0, 6), st.integers(0, 6), st.integers(0, 6), st.sampled_from([255, 256, 257, 300, 0x1234, 0xFF01, 0xFFFF]))
+_full_cell = st.tuples(st.sampled_from(NOTECMDS), vs.edge_int(0, 129), _modnum, u16, u16).map(list)
 # tracker-style cells with exactly one column set (only a module number, only a velocity, ...) are as common as full ones
 _one_column = st.one_of(
     st.integers(1, 6).map(lambda m_: [0, 0, m_, 0, 0]),
@@ -91,6 +93,9 @@ def case_strategy(draw, max_tracks, max_lines):
         "modules": draw(st.integers(0, 4)),
         "module_types": draw(st.lists(st.sampled_from(["Amplifier", "MultiSynth", "MultiCtl", "WaveShaper", "SpectraVoice", "Fmx", "MetaModule", "Sampler", "Generator"]), min_size=4, max_size=4)),
         "save_first": draw(st.booleans()),
+        # the project (with the pattern in it) was written as a file of this SunVox version and loaded again: the bulk
+        # edits are made on the loaded pattern
+        "loaded_version": draw(st.sampled_from([None, None, None, [1, 9, 4, 2], [1, 7, 0, 0], [2, 0, 0, 0]])),
         "initial": initial,
         "edits": edits,
         "follow_up": follow,
@@ -308,6 +313,14 @@ def build(case):
         n.note, n.vel, n.module, n.ctl, n.val = NOTECMD(c[0]), c[1], c[2], c[3], c[4]
     if project is not None and case.get("save_first"):
         project.read()  # the project has been saved (and will be saved again) around the bulk edits
+    if project is not None and case.get("loaded_version"):
+        from io import BytesIO
+
+        from rv.api import read_sunvox_file
+
+        project.sunvox_version = tuple(case["loaded_version"])
+        project = read_sunvox_file(BytesIO(project.read()))
+        pattern = project.patterns[0]
     return pattern, project
 
 
@@ -315,6 +328,10 @@ def initial_model(case):
     cells = [[0, 0, 0, 0, 0] for _ in range(case["tracks"] * case["lines"])]
     for idx, c in case["initial"]:
         cells[idx] = list(c)
+    if case["attached"] and case.get("loaded_version") and tuple(case["loaded_version"]) < (1, 9, 5, 0):
+        # files older than 1.9.5 hold 8-bit module numbers in their cells: that is what loading such a file gives
+        for c in cells:
+            c[2] &= 0xFF
     return cells
 
 
